@@ -133,6 +133,11 @@ TYPES = {
     # so the *result* must still be a fresh object on every call
     "list(bare)": ("list", ["[1, 2]"], ["'[1, 2]'", "b'[1, 2]'", "'[[1], [2]]'", "'[]'"]),
     "dict(bare)": ("dict", ["{'a': 1}"], ["'{\"a\": [1]}'", "b'{\"a\": 1}'", "'{}'"]),
+    # Python-literal text decodes to tuples that may hold mutable containers
+    "tuple(bare)": ("tuple", ["(1, 2)"], ["'[1],[2]'", "'(1, [2, 3], {\"k\": [4]})'", "'1,2'", "b'[1],[2]'"]),
+    "tuple[list, ...](bare)": ("tuple[list, ...]", ["([1], [2])"], ["'[1],[2]'", "'([1, 2], [3])'", "b'[1],[2]'"]),
+    "list[list](bare)": ("list[list]", ["[[1], [2]]"], ["'[1],[2]'", "'[[1], [2]]'", "b'[[1], [2]]'"]),
+    "dict[str, dict](bare)": ("dict[str, dict]", ["{'a': {'b': 1}}"], ["'{\"a\": {\"b\": [1]}}'", "\"{'a': {'b': [1]}}\""]),
     "'Item'@A": ("<bare string from module A>", ["A.Item(1)"], ["{'x': 1}", "{'x': '2'}"]),
     "'Item'@B": ("<bare string from module B>", ["B.Item('s')"], ["{'y': 's'}", "{'y': 3}"]),
 }
@@ -395,6 +400,27 @@ def machine(col, seed, n_examples, steps):
                 if isinstance(b, bytes):
                     self._call("decode", key, b, repr(b))
 
+        @precondition(lambda self: bool(self.seen_calls))
+        @rule(i=st.integers(0, 10 ** 6))
+        def repeat_earlier_call(self, i):
+            """re-issue an earlier (operation, type, input): histories that repeat are where caches and
+            shared state show"""
+            calls = [h for h in self.hist if h[0] in ("marshal", "unmarshal") and h[2] is not None]
+            if not calls:
+                return
+            op, key, src = calls[-1 - (i % min(len(calls), 6))]
+            col.label("op:repeat")
+            self._call(op, key, eval(src, pool()), src)  # noqa: S307
+
+        @precondition(lambda self: bool(self.live_results))
+        @rule(how=st.integers(0, 5))
+        def mutate_latest_result(self, how):
+            name, obj = self.live_results[-1]
+            if deep_mutate(obj, how):
+                self.hist.append(["mutate-result", name, how])
+                self.dirty = True
+                col.label("op:mutate-result")
+
         @precondition(lambda self: bool(self.live_results))
         @rule(i=st.integers(0, 11), how=st.integers(0, 5))
         def mutate_result(self, i, how):
@@ -433,7 +459,7 @@ def _d(o):
 
 
 def plan(tier, seed):
-    n = 25 if tier == "quick" else 500
+    n = 60 if tier == "quick" else 800
     return [{"seed": seed * 1000 + k, "n": n} for k in range(16)]
 
 
